@@ -1392,8 +1392,10 @@ def unroll_literal_loops(tree: ast.Module, unchanged: T.Optional[T.Set[int]] = N
                 mod_tables[tg_.id] = st_.value
     mod_tables = {k: v for k, v in mod_tables.items() if n_assigned.get(k) == 1}
 
-    def literal_of(it: ast.AST) -> T.Optional[ast.AST]:
-        if isinstance(it, ast.Name) and it.id in mod_tables:
+    def literal_of(it: ast.AST, target: ast.AST) -> T.Optional[ast.AST]:
+        # a named table only for `for a, b in _TABLE:` (rows of constants); a flag loop over a named list of plain constants
+        # (`for fn in SUPPORTED_CONFIGS: if ...: found = True; break`) is an idiom the rules read as it stands
+        if isinstance(it, ast.Name) and it.id in mod_tables and isinstance(target, ast.Tuple):
             return mod_tables[it.id]
         return it if isinstance(it, (ast.Tuple, ast.List)) else None
 
@@ -1426,7 +1428,7 @@ def unroll_literal_loops(tree: ast.Module, unchanged: T.Optional[T.Set[int]] = N
                     visit_block(sub)
             for h in getattr(st, "handlers", []) or []:
                 visit_block(h.body)
-            lit = literal_of(st.iter) if isinstance(st, ast.For) else None
+            lit = literal_of(st.iter, st.target) if isinstance(st, ast.For) else None
             tnames = ([st.target.id] if isinstance(st.target, ast.Name) else [t_.id for t_ in st.target.elts if isinstance(t_, ast.Name)]) if isinstance(st, ast.For) and isinstance(st.target, (ast.Name, ast.Tuple)) else []
             if isinstance(st, ast.For) and lit is not None and 1 <= len(lit.elts) <= 6 and elements_fit(st.target, lit) \
                     and not any(isinstance(x, ast.Name) and x.id in tnames and isinstance(x.ctx, ast.Store) for b in st.body for x in ast.walk(b)):
